@@ -61,6 +61,9 @@ type Program struct {
 	declOnce sync.Once
 	decls    map[*types.Func]*ast.FuncDecl
 	declPkg  map[*types.Func]*packages.Package
+
+	renOnce sync.Once
+	ren     *renameTable
 }
 
 // Load loads ./... of cfg.Dir.  Any loader or type error is fatal for the
@@ -140,6 +143,7 @@ func Load(cfg Config) (*Program, error) {
 			return nil, fmt.Errorf("package %s not loaded", want)
 		}
 	}
+	p.renames() // resolve renamed anchors against the embedded baseline before any rule prints a name
 	return p, nil
 }
 
@@ -247,9 +251,9 @@ func FuncName(fn *types.Func) string {
 		if n, ok := t.(*types.Named); ok {
 			name = n.Obj().Name()
 		}
-		return fmt.Sprintf("%s.(%s%s).%s", pkg, ptr, name, fn.Name())
+		return fmt.Sprintf("%s.(%s%s).%s", pkg, ptr, name, BaseName(fn))
 	}
-	return pkg + "." + fn.Name()
+	return pkg + "." + BaseName(fn)
 }
 
 // LookupFunc resolves "name" (package function) or "T.name" (method on T or *T)
@@ -266,9 +270,15 @@ func (p *Program) LookupFunc(short, name string) *types.Func {
 		}
 		obj, _, _ := types.LookupFieldOrMethod(types.NewPointer(tn.Type()), true, pk.Types, name[i+1:])
 		fn, _ := obj.(*types.Func)
+		if fn == nil {
+			fn = p.renames().funcs[pk.Types.Name()+"|"+name[:i]+"|"+name[i+1:]]
+		}
 		return fn
 	}
 	fn, _ := pk.Types.Scope().Lookup(name).(*types.Func)
+	if fn == nil {
+		fn = p.renames().funcs[pk.Types.Name()+"||"+name]
+	}
 	return fn
 }
 
@@ -291,7 +301,7 @@ func (p *Program) LookupField(short, tname, field string) *types.Var {
 			return st.Field(i)
 		}
 	}
-	return nil
+	return p.renames().fields[pk.Types.Name()+"|"+tname+"|"+field]
 }
 
 // LookupObj resolves a package-level object.
@@ -300,7 +310,13 @@ func (p *Program) LookupObj(short, name string) types.Object {
 	if pk == nil {
 		return nil
 	}
-	return pk.Types.Scope().Lookup(name)
+	if obj := pk.Types.Scope().Lookup(name); obj != nil {
+		return obj
+	}
+	if obj, ok := p.renames().objs[pk.Types.Name()+"|"+name]; ok {
+		return obj
+	}
+	return nil
 }
 
 // ---------------------------------------------------------------- SSA / call graph
